@@ -399,6 +399,13 @@ def shared_source(args):
                         t = pd.Timestamp(datetime.datetime(2020, 2, day, hh, 30 if hh == 14 else 0), tz='UTC')
                         src.get_bid(t, a)
                         src.get_ask(t, a)
+        elif mode == 'orders_before':
+            # i orders were created earlier in this process (a parameter sweep, a long run): the ids of this
+            # session's orders then straddle a power of ten, whatever the library draws them from
+            from qstrader.execution.order import Order
+            t0 = pd.Timestamp('2020-02-24 14:30', tz='UTC')
+            for _ in range(i):
+                Order(t0, 'EQ:AAA', 1)
         elif mode == 'pair':
             sl.run_session(cfgs[i], handler, fresh=False)
         if mode == 'shared_universe':
@@ -410,9 +417,10 @@ def shared_source(args):
             got = digest_obs(sl.run_session(cfgs[j], handler, fresh=False))
         if got != want:
             viols.append({'clause': 'C18.depends_on_source_history', 'signature': '%s' % mode,
-                          'detail': {'first': {'pair': cfgs[i]['name'], 'burst': 'burst of price queries',
-                                               'other_market': cfgs[i]['name'] + ' on another market',
-                                               'rewritten_dir': cfgs[i]['name'] + ' on other prices in the same directory',
+                          'detail': {'first': {'pair': cfgs[min(i, len(cfgs) - 1)]['name'], 'burst': 'burst of price queries',
+                                               'orders_before': '%d orders created earlier in the process' % i,
+                                               'other_market': cfgs[min(i, len(cfgs) - 1)]['name'] + ' on another market',
+                                               'rewritten_dir': cfgs[min(i, len(cfgs) - 1)]['name'] + ' on other prices in the same directory',
                                                'shared_universe': 'the same session on the same universe object'}[mode],
                                      'second': cfgs[j]['name'], 'digest_in_pristine_process': want,
                                      'digest_after_history': got},
@@ -521,6 +529,8 @@ def run(tier, res, is_known):
     pairs += [(i, j, 'other_market', pristine[j]) for i in (0, 1, 3) for j in range(len(cfgs))]
     pairs += [(i, j, 'rewritten_dir', pristine[j]) for i in (0, 1) for j in range(len(cfgs))]
     pairs += [(j, j, 'shared_universe', pristine[j]) for j in range(len(cfgs))]
+    ks = (1, 2, 3, 6) if tier == 'quick' else (1, 2, 3, 4, 5, 6)
+    pairs += [(10 ** k - dd, j, 'orders_before', pristine[j]) for k in ks for dd in (0, 1, 2, 3) for j in (0, 1)]
     core.product(shared_source, pairs, res, is_known, label='shared source / process histories', chunk=1)
     if any(not is_known(v) for v in res.violations):
         return
